@@ -37,7 +37,8 @@ Forest ==
      [class |-> "IntValue", name |-> <<74>>, parent |-> 1, kids |-> <<>>,
         props |-> << <<"Value", [t |-> "Int64", v |-> <<255, 255, 255, 255, 166, 151, 209, 0>>]>> >>],   \* -1 500 000 000
      [class |-> "NumberValue", name |-> <<78>>, parent |-> 1, kids |-> <<>>,
-        props |-> << <<"Value", [t |-> "Float64", v |-> <<63, 248, 0, 0, 0, 0, 0, 0>>]>> >>],
+        \* 0.1f32 widened exactly (0.10000000149011612): exact in Float32, but not the shortest decimal of 0.1
+        props |-> << <<"Value", [t |-> "Float64", v |-> <<63, 185, 153, 153, 160, 0, 0, 0>>]>> >>],
      [class |-> "ObjectValue", name |-> <<79>>, parent |-> 1, kids |-> <<>>,
         props |-> << <<"Value", [t |-> "Ref", v |-> 3]>> >>],
      [class |-> "ObjectValue", name |-> <<81>>, parent |-> 1, kids |-> <<>>,
